@@ -238,12 +238,40 @@ def _task(args):
     return leaves, stack
 
 
+_POOL = {'ex': None, 'nproc': 0}
+
+
+def get_pool(nproc):
+    if _POOL['ex'] is None or _POOL['nproc'] != nproc:
+        drop_pool()
+        _POOL['ex'] = cf.ProcessPoolExecutor(
+            max_workers=nproc, mp_context=mp.get_context('fork'))
+        _POOL['nproc'] = nproc
+    return _POOL['ex']
+
+
+def drop_pool(kill=False):
+    ex = _POOL['ex']
+    if ex is None:
+        return
+    procs = list((getattr(ex, '_processes', None) or {}).values())
+    ex.shutdown(wait=not kill, cancel_futures=True)
+    if kill:
+        for p in procs:
+            try:
+                p.terminate()
+            except Exception:
+                pass
+    _POOL['ex'] = None
+
+
 def explore(modname, h, params, prop_id, budget_s, nproc, seed=0,
             validate=True, log=None, stop_on_violation=True):
-    """Explore all paths of harness h under params.  Returns summary dict."""
+    """Explore all paths of harness h under params.  Returns summary dict.
+    The worker pool is shared by successive calls (workers are forked after
+    the harness module was imported)."""
     known_ids = load_known(prop_id)
     t0 = time.time()
-    ctxmp = mp.get_context('fork')
     summary = {'leaves': 0, 'infeasible': 0, 'decisions': 0, 'forks': 0,
                'checks': 0, 'solver_s': 0.0, 'closing': 0, 'validated': 0,
                'realisations': 0, 'violations': [], 'known': {},
@@ -252,45 +280,39 @@ def explore(modname, h, params, prop_id, budget_s, nproc, seed=0,
                'max_depth': 0}
     queue = [[]]
     chunk = 1
-    with cf.ProcessPoolExecutor(max_workers=nproc, mp_context=ctxmp) as ex:
-        futs = set()
-        stop = False
-        while (queue or futs) and not stop:
-            while queue and len(futs) < nproc * 2:
-                pre = queue.pop()
-                futs.add(ex.submit(_task, (
-                    modname, h.name, params, pre, prop_id, known_ids, seed,
-                    validate, chunk, 10.0)))
-            done, futs = cf.wait(futs, timeout=1.0,
-                                 return_when=cf.FIRST_COMPLETED)
-            for f in done:
-                leaves, rest = f.result()
-                queue.extend(rest)
-                for leaf in leaves:
-                    _accumulate(summary, leaf)
-                    if leaf['violations'] and stop_on_violation:
-                        stop = True
-            if summary['leaves'] > 8:
-                chunk = 8
-            if summary['leaves'] > 200:
-                chunk = 32
-            if time.time() - t0 > budget_s:
-                summary['limits'].append('wall budget %.0fs exhausted with '
-                                         '%d prefixes open' %
-                                         (budget_s, len(queue) + len(futs)))
-                stop = True
-        if stop:
-            procs = list((getattr(ex, '_processes', None) or {}).values())
-            for f in futs:
-                f.cancel()
-            ex.shutdown(wait=False, cancel_futures=True)
-            for p in procs:
-                try:
-                    p.terminate()
-                except Exception:
-                    pass
-        else:
-            summary['complete'] = True
+    ex = get_pool(nproc)
+    futs = set()
+    stop = False
+    while (queue or futs) and not stop:
+        while queue and len(futs) < nproc * 2:
+            pre = queue.pop()
+            futs.add(ex.submit(_task, (
+                modname, h.name, params, pre, prop_id, known_ids, seed,
+                validate, chunk, 10.0)))
+        done, futs = cf.wait(futs, timeout=1.0,
+                             return_when=cf.FIRST_COMPLETED)
+        for f in done:
+            leaves, rest = f.result()
+            queue.extend(rest)
+            for leaf in leaves:
+                _accumulate(summary, leaf)
+                if leaf['violations'] and stop_on_violation:
+                    stop = True
+        if summary['leaves'] > 8:
+            chunk = 8
+        if summary['leaves'] > 200:
+            chunk = 32
+        if time.time() - t0 > budget_s:
+            summary['limits'].append('wall budget %.0fs exhausted with '
+                                     '%d prefixes open' %
+                                     (budget_s, len(queue) + len(futs)))
+            stop = True
+    if stop:
+        for f in futs:
+            f.cancel()
+        drop_pool(kill=True)
+    else:
+        summary['complete'] = True
     summary['wall'] = time.time() - t0
     summary['notes'] = sorted(summary['notes'])
     return summary
